@@ -6,7 +6,11 @@ p=$1; v=$2
 wt=/tmp/mut/$p; sd=$wt/_seed/$v
 git -C $wt checkout -q -- src
 git -C $wt apply $sd/patch.diff || { echo "APPLY FAILED"; exit 1; }
-tests=$(/venv/bin/python /tmp/mut/runtests.py $wt 2>&1 | tail -1)
+for try in 1 2 3 4 5 6; do
+  tests=$(/venv/bin/python /tmp/mut/runtests.py $wt 2>&1 | tail -1)
+  case "$tests" in *"191 passed"*) break;; esac
+  sleep $((RANDOM % 20 + 5))    # the test port may be held by a concurrent run
+done
 /venv/bin/python /tmp/mut/runtests.py $wt --script $sd/demo.py >/dev/null 2>&1; demo_with=$?
 git -C $wt checkout -q -- src
 /venv/bin/python /tmp/mut/runtests.py $wt --script $sd/demo.py >/dev/null 2>&1; demo_without=$?
